@@ -18,6 +18,7 @@ inductive Op (β : Type) where
   | revert (k : Nat)
   | resize (nb : Nat)
   | setPunch (p : Bool)
+  | lunmap
 
 def step (d : DD β) : Op β → DD β
   | .write off len buf => d.write off len buf
@@ -32,6 +33,7 @@ def step (d : DD β) : Op β → DD β
   | .revert k          => d.revert k
   | .resize nb         => d.resize nb
   | .setPunch p        => d.setPunch p
+  | .lunmap            => d.lunmap
 
 /-- The requests the system issues (what the controller's range check, the replica's guards and
     the cleaner's filter let through).  Everything else is refused before it reaches the disk. -/
